@@ -42,6 +42,14 @@ def run(pid, tier_, replay=None):
 
     if replay:
         obj = json.load(open(replay))
+        if isinstance(obj, dict) and "split_case" in obj:
+            got = [v for v in bp.split_replay(bp.build_harness(race=False), obj["split_case"]) if v[0] == pid]
+            for prop, clause in got:
+                print("VIOLATION property=%s replay=%s" % (pid, replay))
+                print("  what: %s on split case %s size %s" % (clause, json.dumps(obj["split_case"]["shape"]), obj["split_case"]["size"]))
+            if not got:
+                print("replay: no violation of %s reproduced on the split case" % pid)
+            return 1 if got else 0
         scs = [obj["scenario"]] if "scenario" in obj else (obj if isinstance(obj, list) else [obj])
         binp = bp.build_harness(race=False)
         trace, hn = bp.run_harness(binp, scs)
